@@ -7,8 +7,9 @@ package session
 
 // Interface contract of session.Store as seen by the broker core. $sets / $lastSet: number of Set calls and the
 // session of the last one; $removes / $lastRemoved: the same for Remove; $expSets / $lastExpID / $lastExp for
-// SetSessionExpiry. Get returns nil, nil when there is no session for the client id.
+// SetSessionExpiry. Get returns nil, nil when there is no session for the client id ($has: the ids that have a session).
 
+//@ ghost field (Store).has string -> bool
 //@ ghost field (Store).sets int
 //@ ghost field (Store).lastSet *gmqtt.Session
 //@ ghost field (Store).removes int
@@ -21,17 +22,22 @@ package session
 //@ params s, clientID
 //@ ensures result1 != nil ==> result0 == nil
 //@ ensures result0 != nil ==> result0.ClientID == clientID
+//@ ensures result1 == nil ==> (result0 != nil) == s.$has[clientID]
 
 //@ func (Store).Set
 //@ params s, session
 //@ requires session != nil
-//@ modifies ghost(s.$sets), ghost(s.$lastSet)
+//@ modifies ghost(s.$sets), ghost(s.$lastSet), ghost(s.$has)
 //@ ensures s.$sets == old(s.$sets) + 1 && s.$lastSet == session
+//@ ensures result == nil ==> (forall c string :: s.$has[c] == (c == session.ClientID || old(s.$has[c])))
+//@ ensures result != nil ==> (forall c string :: s.$has[c] == old(s.$has[c]))
 
 //@ func (Store).Remove
 //@ params s, clientID
-//@ modifies ghost(s.$removes), ghost(s.$lastRemoved)
+//@ modifies ghost(s.$removes), ghost(s.$lastRemoved), ghost(s.$has)
 //@ ensures s.$removes == old(s.$removes) + 1 && s.$lastRemoved == clientID
+//@ ensures result == nil ==> (forall c string :: s.$has[c] == (c != clientID && old(s.$has[c])))
+//@ ensures result != nil ==> (forall c string :: s.$has[c] == old(s.$has[c]))
 
 //@ func (Store).SetSessionExpiry
 //@ params s, clientID, expiry
